@@ -27,7 +27,7 @@ LEVEL = ("(Dynamics also with non-zero ground-state energies, and hierarchies ob
          "stored state. (c) zero reorganisation energy: equals exp(-i(H-H_rwa)t) rho exp(+i...) within 3x the exact "
          "truncation error of the order-4 expansion. (d) uncoupled sites: error against exp(-i(w-W)t - g(t)) at depth "
          "6 below 1e-4 and not increasing over depths 1,2,4,6."
-         " Later additions: propagation and propagator construction in units contexts; non-integer correlation times; the propagator route of the aggregate; bath parameters (decay rates, reorganisation energies) of every hierarchy.")
+         " Later additions: propagation and propagator construction in units contexts; non-integer correlation times; the propagator route of the aggregate; bath parameters (decay rates, reorganisation energies) of every hierarchy. Round five: the reporting option of propagate; molecules sharing one correlation-function object.")
 NOTE = ("HEOM in quantarhei uses the high-temperature limit of the overdamped Brownian oscillator (it says so); g(t) "
         "of the oracle is the closed form for that limit. Convergence clause restricted to sqrt(2 lam kT)/gamma <= 1.0 "
         "and gamma*dt*depth <= 0.35. dim <= 4, depth <= 6, <= 160 time steps.")
